@@ -114,6 +114,9 @@ func TestProp(t *testing.T) {
 	r.Assume("reference ref/pac verifies the AD-issued sample under its real key (self-test on every run); NDR contents are compared with known values transcribed from the repository's vectors, not with an independent NDR decoder")
 	r.Note("flips inside the KDC signature's value bytes are zeroed before the server checksum and cannot be verified without the krbtgt key: expected accepted with unchanged attributes")
 	r.Note("PACs with a duplicated signature buffer are judged for soundness only (accept => reference accepts)")
+	r.Note("keytabs with several key versions: the service's key is the one the ticket was issued under; a PAC signed with any other key of the keytab (other version, other principal) must fail (c19_history_test.go)")
+	r.Note("one PACType value used for several PACs / keys in turn: a call that succeeds must be on bytes the reference verifies under the key of that call; a used value that refuses a valid PAC is only counted")
+	r.Note("identity as the application gets it (UserName, DisplayName, AuthzAttributes, ADCredentials) from VerifyAPREQ, after Credentials.Marshal/Unmarshal and from the SPNEGO handler's session store, with names patched in place (c19_identity_test.go)")
 
 	// 0. the unmodified AD-issued sample under its real key, and the known attributes
 	sk, _ := pac.SampleKey()
@@ -139,6 +142,9 @@ func TestProp(t *testing.T) {
 	bufs, _, _ := pac.Parse(pac.SampleBytes())
 	patchedAttributeCases(r, bufs)
 	groupCases(r, bufs)
+	keyVersionCases(r, bufs)
+	reuseCases(r, bufs)
+	identityCases(r, bufs)
 
 	type variant struct {
 		name string
